@@ -75,16 +75,39 @@ def core_expr(rng, names, depth):
     return a()
 
 
-def core_program(rng):
-    names, lines = [], []
-    for _ in range(rng.randint(1, 6)):
-        if rng.random() < 0.6 or not names:
+def core_stmts(rng, names, depth, lines, ind, counter):
+    """statements of the core fragment: let, expression statements, blocks, while loops (bounded counters);
+    `names` = visible names (a block's names end with it)"""
+    names = list(names)
+    for _ in range(rng.randint(1, 4 if depth else 6)):
+        r = rng.random()
+        if r < 0.4 or not names:
             n = rng.choice(["x", "y", "z", "w"])
-            lines.append(f"let {n} = {core_expr(rng, names, 3)};")
+            lines.append(f"{ind}let {n} = {core_expr(rng, names, 3)};")
             if n not in names:
                 names.append(n)
+        elif r < 0.7 or depth >= 3:
+            lines.append(f"{ind}{core_expr(rng, names, 3)};")
+        elif r < 0.82:
+            lines.append(ind + "{")
+            core_stmts(rng, names, depth + 1, lines, ind + "  ", counter)
+            lines.append(ind + "}")
         else:
-            lines.append(f"{core_expr(rng, names, 3)};")
+            counter[0] += 1
+            i = f"i{counter[0]}"
+            k = rng.randint(0, 4)
+            cond = rng.choice([f"{i} < {k}", f"{i} <= {k}", f"{k} > {i}", f"({i} < {k}) && true", f"!({i} >= {k})"])
+            lines.append(f"{ind}let {i} = 0;")
+            lines.append(f"{ind}while {cond} {{")
+            lines.append(f"{ind}  {i} = {i} + 1;")
+            core_stmts(rng, names, depth + 1, lines, ind + "  ", counter)
+            lines.append(ind + "}")
+    return names
+
+
+def core_program(rng):
+    lines = []
+    names = core_stmts(rng, [], 0, lines, "", [0])
     lines.append(core_expr(rng, names, 3))
     return "\n".join(lines) + "\n"
 
